@@ -57,6 +57,23 @@ def run_variant(v):
             apply_edits(scratch, edits)
         except Exception as e:
             return v, "SETUP-FAIL", str(e)
+        if MORPH[0]:
+            # behaviour-preserving rewrite of the whole package ON TOP of the
+            # variant (tools/metamorph.py): a V variant must still be reported,
+            # an OK variant must still be silent
+            try:
+                import metamorph
+                metamorph.rewrite(scratch, MORPH[1], MORPH[0], MORPH[2])
+                import compileall
+                import warnings
+                with warnings.catch_warnings():
+                    warnings.simplefilter("ignore")
+                    if not compileall.compile_dir(
+                            os.path.join(scratch, "src", "saml2_tophat"),
+                            quiet=2):
+                        return v, "SETUP-FAIL", "rewritten tree does not compile"
+            except Exception as e:
+                return v, "SETUP-FAIL", "morph: %r" % (e,)
         env = dict(os.environ, VERIF_REPO=scratch, PYTHONDONTWRITEBYTECODE="1")
         out_all = []
         verdict = "PASS"
@@ -80,14 +97,27 @@ def run_variant(v):
         shutil.rmtree(scratch, ignore_errors=True)
 
 
+MORPH = [None, None, None]
+
+
 def main():
     ap = argparse.ArgumentParser()
+    ap.add_argument("--morph", default="", help="transformations of "
+                    "tools/metamorph.py (a+b+c) applied on top of every variant")
     ap.add_argument("-j", type=int, default=16)
     ap.add_argument("-k", default="")
     ap.add_argument("--prop", default="")
     ap.add_argument("-v", action="store_true")
     a = ap.parse_args()
     from mutants import VARIANTS
+    if a.morph:
+        sys.path.insert(0, VERIF)
+        sys.path.insert(0, os.path.join(VERIF, "tools"))
+        import metamorph
+        from sa import srcmodel
+        model = srcmodel.Model()
+        MORPH[0], MORPH[1], MORPH[2] = a.morph, metamorph.hand_written(model), \
+            model
     todo = [v for v in VARIANTS if a.k in v["id"] and
             (not a.prop or a.prop in v["props"])]
     t0 = time.time()
